@@ -187,7 +187,7 @@ var c02families = []c02family{
 		return &texpr{name: "bits", bits: g.curNames}
 	}, func(g *c02gen, lv int, t *texpr) {
 		t.bits = c02subset(g)
-	}, nil, false},
+	}, nil, true},
 	{"decimal64", func(g *c02gen) *texpr { return &texpr{name: "decimal64", fd: ip(3)} },
 		func(g *c02gen, lv int, t *texpr) { t.rng = sp([]string{"0..100", "1..50.5"}[lv%2]) }, []string{"2.5"}, true},
 	{"boolean", func(g *c02gen) *texpr { return &texpr{name: "boolean"} }, func(g *c02gen, lv int, t *texpr) {}, []string{"true"}, false},
@@ -656,9 +656,8 @@ func C02(c *core.Ctx) {
 				fam := core.Pick(r, c02families[:8])
 				l.t = fam.base(g)
 				l.fam = fam.name
-				if fam.name == "enumeration" || fam.name == "bits" {
-					l.list = false
-				}
+				// also written directly on a leaf-list
+				l.list = fam.canList && r.Chance(30)
 			default:
 				l.t = &texpr{name: "union"}
 				for i, n := 0, 2+r.Intn(2); i < n; i++ {
@@ -674,6 +673,21 @@ func C02(c *core.Ctx) {
 				}
 				l.t.members = append(l.t.members, &texpr{name: "int8", rng: sp("1..5")})
 				l.fam = "union"
+				if r.Chance(50) {
+					// the union is the type of a module-level typedef: what its member typedefs state as default and
+					// units stays with the members (RFC 7950 §9.12)
+					utd := &ttypedef{name: g.name("tu"), t: l.t, where: "module"}
+					if r.Chance(30) {
+						utd.units = sp("u-" + utd.name)
+					}
+					g.module = append(g.module, utd)
+					sc := append([][]*ttypedef{}, scopes...)
+					last := len(sc) - 1
+					sc[last] = append(append([]*ttypedef{}, sc[last]...), utd)
+					l.scopes = sc
+					l.t = &texpr{name: utd.name}
+					c.Count("scenario", "leaf of a typedef whose type is a union of typedefs")
+				}
 			}
 			if r.Chance(25) {
 				l.units = sp("own-" + l.name)
